@@ -531,7 +531,11 @@ class UnitSystemManager(Singleton):
         ret_tuple = self.ConvertToCurrent(
             scalar.GetCategory(), scalar.GetUnit(), scalar.GetValue(), unit_database
         )
-        return Scalar(*ret_tuple)
+        value, unit = ret_tuple
+        if unit == scalar.GetUnit():
+            # Nothing to convert: keep the quantity of the given scalar as it is.
+            return scalar.CreateCopy(value=value)
+        return Scalar(value, unit, scalar.GetCategory())
 
 
 class _IdentityWrap:
